@@ -10,8 +10,11 @@ import (
 	"go.opentelemetry.io/collector/consumer/consumererror"
 	"go.opentelemetry.io/collector/exporter"
 	"go.opentelemetry.io/collector/exporter/exporterhelper"
+	"go.opentelemetry.io/collector/exporter/exporterhelper/xexporterhelper"
+	"go.opentelemetry.io/collector/exporter/xexporter"
 	"go.opentelemetry.io/collector/pdata/plog"
 	"go.opentelemetry.io/collector/pdata/pmetric"
+	"go.opentelemetry.io/collector/pdata/pprofile"
 	"go.opentelemetry.io/collector/pdata/ptrace"
 	"verif.local/simkit"
 	"verif.local/simkit/gen"
@@ -32,6 +35,9 @@ type sigAdapter struct {
 	// hollow reports whether the payload has a container without items (resource without scopes, scope without
 	// items, metric without data points)
 	hollow func(p any) bool
+	// units counts the indivisible units of a payload when they are coarser than items (profiles: a profile's
+	// samples cannot be separated); nil = items
+	units func(p any) int
 }
 
 type simExporter interface {
@@ -149,6 +155,65 @@ var metricsAdapter = &sigAdapter{
 		d := pmetric.NewMetrics()
 		p.(pmetric.Metrics).CopyTo(d)
 		return consumererror.NewMetrics(errTransient, d), d.DataPointCount()
+	},
+}
+
+type profilesExp struct{ xexporter.Profiles }
+
+func (e profilesExp) Consume(ctx context.Context, p any) error {
+	return e.ConsumeProfiles(ctx, p.(pprofile.Profiles))
+}
+func (e profilesExp) Caps() consumer.Capabilities { return e.Capabilities() }
+
+// profilesAdapter is used by C04 only (profiles have no obsreport counters and no partial-failure error type).
+var profilesAdapter = &sigAdapter{
+	name:  "profiles",
+	gen:   func(tp *simkit.Tape, ids *gen.IDs, sh gen.Shape) any { return gen.Profiles(tp, ids, sh) },
+	items: func(p any) map[string]string { return gen.SampleItems(p.(pprofile.Profiles), "i") },
+	bytes: func(p any) int { return (&pprofile.ProtoMarshaler{}).ProfilesSize(p.(pprofile.Profiles)) },
+	clone: func(p any) any { d := pprofile.NewProfiles(); p.(pprofile.Profiles).CopyTo(d); return d },
+	empty: func() any { return pprofile.NewProfiles() },
+	json: func(p any) string {
+		b, _ := (&pprofile.JSONMarshaler{}).MarshalProfiles(p.(pprofile.Profiles))
+		return string(b)
+	},
+	newExp: func(set exporter.Settings, push func(context.Context, any) error, opts ...exporterhelper.Option) (simExporter, error) {
+		e, err := xexporterhelper.NewProfilesExporter(context.Background(), set, struct{}{}, func(ctx context.Context, pd pprofile.Profiles) error { return push(ctx, pd) }, opts...)
+		if err != nil {
+			return nil, err
+		}
+		return profilesExp{e}, nil
+	},
+	units: func(p any) int {
+		pd := p.(pprofile.Profiles)
+		n := 0
+		for i := 0; i < pd.ResourceProfiles().Len(); i++ {
+			for j := 0; j < pd.ResourceProfiles().At(i).ScopeProfiles().Len(); j++ {
+				n += pd.ResourceProfiles().At(i).ScopeProfiles().At(j).Profiles().Len()
+			}
+		}
+		return n
+	},
+	hollow: func(p any) bool {
+		pd := p.(pprofile.Profiles)
+		for i := 0; i < pd.ResourceProfiles().Len(); i++ {
+			rp := pd.ResourceProfiles().At(i)
+			if rp.ScopeProfiles().Len() == 0 {
+				return true
+			}
+			for j := 0; j < rp.ScopeProfiles().Len(); j++ {
+				sp := rp.ScopeProfiles().At(j)
+				if sp.Profiles().Len() == 0 {
+					return true
+				}
+				for k := 0; k < sp.Profiles().Len(); k++ {
+					if sp.Profiles().At(k).Sample().Len() == 0 {
+						return true
+					}
+				}
+			}
+		}
+		return false
 	},
 }
 
